@@ -25,6 +25,8 @@ type Clause struct {
 	Expr ast.Expr
 	File string
 	Line int
+	View string // proof view this clause belongs to ("" = every view)
+	N    int    // ordinal among the clauses of its kind in the whole contract (1-based), stable across views
 }
 
 type LoopClause struct {
@@ -32,6 +34,8 @@ type LoopClause struct {
 	Kind string // invariant | decreases
 	Src  string
 	Expr ast.Expr
+	View string
+	N    int // ordinal among the clauses of this kind of this loop in the whole contract (1-based)
 }
 
 type CallClause struct {
@@ -59,6 +63,8 @@ type Contract struct {
 	File      string
 	Line      int
 	usedLoops map[int]bool
+	curView   string   // while parsing: the view that following ensures/loop clauses belong to
+	Views     []string // the proof views declared by "view <name>" lines, in order
 	Notes     []string
 	Shared    bool
 	Allows    map[string]string
@@ -132,7 +138,7 @@ type ContractFile struct {
 }
 
 var clauseKeywords = map[string]bool{"recovers-first": true, "assumes": true, "allows": true, "requires": true, "ensures": true, "modifies": true, "loop": true, "at": true, "inline": true,
-	"trusted": true, "decreases": true, "allocates": true, "note": true, "shared": true}
+	"trusted": true, "decreases": true, "allocates": true, "note": true, "shared": true, "view": true}
 
 func parseContractFile(path, pkgPath string) (*ContractFile, error) {
 	data, err := os.ReadFile(path)
@@ -372,7 +378,27 @@ func (cf *ContractFile) addClause(c *Contract, kw, text, path string, line int) 
 		if err != nil {
 			return err
 		}
+		cl.View, cl.N = c.curView, len(c.Ensures)+1
 		c.Ensures = append(c.Ensures, cl)
+	case "view":
+		// view <name>: the ensures and loop clauses that follow (up to the next "view" line) are proved in a
+		// separate pass over the function, together with the clauses outside any view ("view all" ends it).
+		// Independent groups of invariants then do not load each other's proofs.
+		name := strings.TrimSpace(text)
+		if name == "all" || name == "" {
+			c.curView = ""
+			return nil
+		}
+		c.curView = name
+		seen := false
+		for _, v := range c.Views {
+			if v == name {
+				seen = true
+			}
+		}
+		if !seen {
+			c.Views = append(c.Views, name)
+		}
 	case "assumes":
 		// a postcondition that callers may use but that is not checked against the body (listed as an assumption)
 		cl, err := mk(text)
@@ -440,7 +466,13 @@ func (cf *ContractFile) addClause(c *Contract, kw, text, path string, line int) 
 		if err != nil {
 			return fmt.Errorf("cannot parse %q: %v", src, err)
 		}
-		c.Loops = append(c.Loops, &LoopClause{Ord: n, Kind: f[0], Src: src, Expr: e})
+		cnt := 1
+		for _, lc := range c.Loops {
+			if lc.Ord == n && lc.Kind == f[0] {
+				cnt++
+			}
+		}
+		c.Loops = append(c.Loops, &LoopClause{Ord: n, Kind: f[0], Src: src, Expr: e, View: c.curView, N: cnt})
 	case "at":
 		// at loop <n> end: assert <expr>   (checked at the end of every iteration, before the invariants)
 		if strings.HasPrefix(text, "loop ") {
@@ -767,6 +799,7 @@ type CEnv struct {
 	where  string
 	qdepth int
 	visitedOf func(m MapV, st *State) (*Term, bool)
+	loopEntry *State // in a loop's own clauses: the state in which the loop was entered (loopentry(e))
 }
 
 func (e *CEnv) fail(format string, a ...interface{}) {
@@ -1345,6 +1378,18 @@ func (e *CEnv) evalCall(n *ast.CallExpr) (Value, types.Type) {
 				return Scalar{Forall(bound, Implies(And(guards...), body))}, boolT
 			}
 			return Scalar{Exists(bound, And(append(guards, body)...))}, boolT
+		case "loopentry":
+			// loopentry(e): the value of e when the loop whose clause this is was entered
+			if e.loopEntry == nil {
+				e.fail("loopentry() is only available in a loop's own invariants and assertions")
+			}
+			ne := *e
+			ne.st = e.loopEntry
+			ne.vars = map[string]cvar{}
+			for k, v := range e.vars {
+				ne.vars[k] = v
+			}
+			return ne.eval(n.Args[0])
 		case "old":
 			if e.old == nil {
 				e.fail("old() not available here")
